@@ -39,6 +39,12 @@ RULE = (
     "element_at/take_while_indexed, on virtual time or on the trampoline: once the subscriber has its terminal no pull / "
     "generate callback / counted element step may follow (the producer is the source: being driven after the terminal "
     "means its subscription outlived the termination; a runaway is cut by the work budget and reported). "
+    "Family teardown_term: termination triggered from user teardown code of a subscription an operator is replacing - "
+    "a finally_action whose action fires (on_next or on_error, optionally only from its 2nd call) the trigger Subject of a "
+    "downstream take_until sits on the subscription that timeout(d, other)/retry/repeat/catch/on_error_resume_next/"
+    "switch_map/delay_subscription/subscribe_on replaces, or on the inner/duration/closing observables of local variants "
+    "of switch_map, throttle_with_mapper, window_when(+merge_all) and timeout_with_mapper; the terminal is then delivered "
+    "re-entrantly inside the operator's release of the old resource; same release oracle. "
     "Non-trivial: the top probe terminated, >=2 source subscriptions were opened and at least one of them was "
     "opened on a source that had not delivered its own terminal by T. Distinct = distinct case JSON."
 )
@@ -492,6 +498,121 @@ def cases_iter():
     )
 
 
+# ---------------------------------------------------------------------------------------
+# termination triggered from user teardown code of a subscription that an operator is replacing: the replaced
+# subscription carries a finally_action whose action fires the trigger of a downstream take_until (on_next -> completion,
+# on_error -> error), so the subscriber's terminal is delivered re-entrantly inside the operator's "dispose the old
+# resource" step; whatever the operator subscribes next must still be released.
+
+TDT_LOCAL = ("finally_fire", "switch_map_fire", "throttle_mapper_fire", "window_when_fire", "timeout_mapper_fire", "take_until_stop")
+
+
+def _build_tdt_op(B, name, a, stop, fire):
+    B._owner = B.opi
+    B.cur = name
+    owner = B._owner
+    if name == "take_until_stop":
+        o = ops.take_until(stop)
+    elif name == "finally_fire":
+        o = ops.finally_action(B.fn("action", fire))
+    else:
+        fin = B.fn("inner_finally", fire)
+        specs = a["os"]
+
+        def inner(*xs):
+            return B._mk(specs[B.h(*xs) % len(specs)], owner, True).pipe(ops.finally_action(fin))
+
+        if name == "switch_map_fire":
+            o = ops.switch_map(B.fn("mapper", inner))
+        elif name == "throttle_mapper_fire":
+            o = ops.throttle_with_mapper(B.fn("throttle_duration_mapper", inner))
+        elif name == "timeout_mapper_fire":
+            o = ops.timeout_with_mapper(None, B.fn("timeout_duration_mapper", inner), B._mk(a["o"], owner, False))
+        elif name == "window_when_fire":
+            cnt = [0]
+
+            def closing():
+                cnt[0] += 1
+                return inner(cnt[0])
+
+            o = ops.compose(ops.window_when(B.fn("closing_mapper", closing)), ops.merge_all())
+        else:
+            raise AssertionError(name)
+    B.opi += 1
+    return o
+
+
+def make_tdt(case):
+    from reactivex.subject import Subject
+
+    pc = case["pipe"]
+
+    def make(lab):
+        B = OBuilder(lab)
+        stop = Subject()
+        fired = [0]
+
+        def fire():
+            fired[0] += 1
+            if fired[0] - 1 < case.get("skip", 0):
+                return  # the first teardown calls do nothing: the trigger fires at a later replacement
+            if case["fire"] == "E":
+                stop.on_error(Tagged("stop"))
+            else:
+                stop.on_next("stop")
+
+        o = B.build_root(pc["root"])
+        for name, args in pc["ops"]:
+            o = (_build_tdt_op(B, name, args, stop, fire) if name in TDT_LOCAL else B.build_op(name, args))(o)
+        return o
+
+    return make
+
+
+def _run_tdt(case):
+    lab, p = run_pipeline(case, make_tdt(case))
+    r = judge(case, case["pipe"], lab, p)
+    extra = []
+    term = p.terminal()
+    if term is not None and not r.inconclusive:
+        # was the terminal delivered from inside user teardown code? (the last callback logged before it is a teardown)
+        before = [e for e in lab.cb_log if e[1] < term[3]]
+        if before and before[-1][2].endswith(("finally_fire.action", ".inner_finally")):
+            extra.append("tdt:terminal-from-teardown:" + term[1])
+        extra.append("tdt:" + "+".join(n for n, _ in case["pipe"]["ops"] if n in TDT_LOCAL and n != "take_until_stop"))
+    r.classes = tuple(r.classes) + tuple(extra)
+    return r
+
+
+def cases_tdt():
+    from vlib.lab import timelines
+    from vlib.pipes import s_inners, s_src
+
+    src = st.fixed_dictionaries({"kind": st.sampled_from(["cold", "hot", "cold"]), "tl": timelines(max_len=5, max_dt=3, min_len=1, terminal=(None, "C", "E"))})
+    pre = st.lists(st.sampled_from(["map", "filter", "do_action"]).flatmap(lambda n: st.tuples(st.just(n), OPS[n].args).map(list)), max_size=1)
+    replacer = st.one_of(
+        st.tuples(st.integers(1, 4), s_src(("cold", "cold", "hot"))).map(lambda t: [["finally_fire", {}], ["timeout", {"d": t[0], "o": t[1]}]]),
+        s_inners().map(lambda os_: [["switch_map_fire", {"os": os_}]]),
+        s_inners().map(lambda os_: [["switch_map_fire", {"os": os_}]]),
+        s_inners().map(lambda os_: [["throttle_mapper_fire", {"os": os_}]]),
+        s_inners().map(lambda os_: [["window_when_fire", {"os": os_}]]),
+        st.tuples(s_inners(), s_src(("cold", "cold", "hot"))).map(lambda t: [["timeout_mapper_fire", {"os": t[0], "o": t[1]}]]),
+        st.sampled_from(["retry", "repeat", "catch", "on_error_resume_next", "switch_map", "delay_subscription", "subscribe_on"]).flatmap(
+            lambda n: OPS[n].args.map(lambda a: [["finally_fire", {}], [n, a]])
+        ),
+    )
+    mid = st.lists(st.sampled_from(["map", "filter", "scan"]).flatmap(lambda n: st.tuples(st.just(n), OPS[n].args).map(list)), max_size=1)
+    tail = st.lists(st.sampled_from(["map", "observe_on", "take", "finally_action"]).flatmap(lambda n: st.tuples(st.just(n), OPS[n].args).map(list)), max_size=1)
+    return st.fixed_dictionaries(
+        {"src": src, "pre": pre, "rep": replacer, "mid": mid, "tail": tail, "inner": inner_policies(), "clock": s_clock, "raise": s_raise, "fire": st.sampled_from(["N", "N", "E"]), "skip": st.integers(0, 1)}
+    ).map(
+        lambda c: {
+            "pipe": {"root": {"f": "single", "srcs": [c["src"]]}, "ops": c["pre"] + c["rep"] + c["mid"] + [["take_until_stop", {}]] + c["tail"]},
+            "inner": c["inner"], "clock": c["clock"], "raise": c["raise"], "fire": c["fire"], "skip": c["skip"],
+        }
+    )
+
+
 def checks(tier):
     q = tier == "quick"
     return [
@@ -499,5 +620,6 @@ def checks(tier):
         Check("inners", _run, strategy=cases_inner(4 if q else 6), examples={"quick": 2000, "thorough": 16 * 4000}, shards={"quick": 4, "thorough": 16}),
         Check("gbu_self", _run_gbu, strategy=cases_gbu(), examples={"quick": 600, "thorough": 16 * 1000}, shards={"quick": 4, "thorough": 16}),
         Check("iter_take", _run_iter, strategy=cases_iter(), examples={"quick": 400, "thorough": 16 * 1000}, shards={"quick": 4, "thorough": 16}),
+        Check("teardown_term", _run_tdt, strategy=cases_tdt(), examples={"quick": 600, "thorough": 16 * 1500}, shards={"quick": 4, "thorough": 16}),
         Check("enders", _run, strategy=cases_forced(3 if q else 5), examples={"quick": 1000, "thorough": 16 * 2000}, shards={"quick": 4, "thorough": 16}),
     ]
